@@ -5,7 +5,7 @@ use crate::keys::{Alg, Hk};
 use crate::pipeline::{self, Cfg, Checks};
 use crate::refmodel::Strat;
 use crate::report::Report;
-use serde_json::Value;
+use serde_json::{json, Value};
 
 pub const BAD_PATHS: [&str; 26] = [
     "a", "", "$", "$a", "a.b", " $.a", "$.zz", "$.a[7]", "$.a[0", "$.a]", "$.a[00]", "$.a[0]b", "$.a..b", "$.a.", "$.[0]", "$..a", "$.a[-1]", "$.a[ 0]",
@@ -22,6 +22,69 @@ fn cfgs8() -> Vec<Cfg> {
         }
     }
     v
+}
+
+/// One issuer instance issues every strategy of a tree in turn, formats alternating: each result must
+/// satisfy the single-call oracle for its own arguments (nothing carried over between calls).
+fn reused_issuer_pass(rep: &Report) {
+    use crate::drive;
+    use crate::report::{par_for, Violation};
+    let ts = trees(3, 3);
+    let before = rep.evals();
+    par_for(rep, ts.len(), |ti, l| {
+        let u = &ts[ti];
+        for alg in [Alg::HS256, Alg::EdDSA] {
+            let mut issuer = drive::new_issuer(crate::keys::issuer_enc(alg, 0), Some(alg.name()));
+            let strats = pipeline::all_strategies(u);
+            // two orders: ascending and descending, so that every strategy follows a "larger" and a "smaller" one
+            let order: Vec<usize> = (0..strats.len()).chain((0..strats.len()).rev()).collect();
+            for (k, si) in order.iter().enumerate() {
+                l.evals += 1;
+                let s = &strats[*si];
+                let cfg = Cfg { fmt: if k % 3 == 0 { Fmt::Json } else { Fmt::Compact }, alg, decoys: k % 5 == 0, hk: if k % 4 == 0 { Hk::Es } else { Hk::None } };
+                let out = drive::issue(&mut issuer, u, s, cfg.hk.jwk(0), cfg.decoys, cfg.fmt);
+                let (_, bad) = pipeline::c05_oracle(u, s, &cfg, &out);
+                for (class, site, detail) in bad {
+                    let mut case = pipeline::case_json("reused_issuer", u, s, &cfg, None);
+                    case["note"] = json!("call number k on one issuer instance that issued every strategy of this tree in turn (replay repeats the whole sequence)");
+                    case["k"] = json!(k);
+                    case["alg"] = json!(alg.name());
+                    l.violation(Violation::new("issue", &class, format!("reused:{site}"), "after_earlier_calls", detail, case));
+                }
+                if k > 0 {
+                    l.nontrivial += 1;
+                }
+            }
+        }
+    });
+    rep.scope_done(json!({"scope": "one reused issuer per tree: S(3,3), every strategy in ascending then descending order, formats / decoys / holder key varying per call, HS256 and EdDSA", "evaluations": rep.evals() - before}));
+}
+
+pub fn replay_reused(case: &Value) -> Vec<crate::report::Violation> {
+    use crate::drive;
+    use crate::report::{Local, Violation};
+    let mut l = Local::default();
+    let u = &case["claims"];
+    let alg = Alg::from_name(case["alg"].as_str().unwrap_or("HS256"));
+    let mut issuer = drive::new_issuer(crate::keys::issuer_enc(alg, 0), Some(alg.name()));
+    let strats = pipeline::all_strategies(u);
+    let order: Vec<usize> = (0..strats.len()).chain((0..strats.len()).rev()).collect();
+    let upto = case["k"].as_u64().unwrap_or(0) as usize;
+    for (k, si) in order.iter().enumerate() {
+        if k > upto {
+            break;
+        }
+        let s = &strats[*si];
+        let cfg = Cfg { fmt: if k % 3 == 0 { Fmt::Json } else { Fmt::Compact }, alg, decoys: k % 5 == 0, hk: if k % 4 == 0 { Hk::Es } else { Hk::None } };
+        let out = drive::issue(&mut issuer, u, s, cfg.hk.jwk(0), cfg.decoys, cfg.fmt);
+        if k == upto {
+            let (_, bad) = pipeline::c05_oracle(u, s, &cfg, &out);
+            for (class, site, detail) in bad {
+                l.violation(Violation::new("issue", &class, format!("reused:{site}"), "after_earlier_calls", detail, case.clone()));
+            }
+        }
+    }
+    l.violations()
 }
 
 pub fn run(rep: &Report) {
@@ -71,10 +134,12 @@ pub fn run(rep: &Report) {
     let pool = ["a", "ab", "abc", "b"];
     let nt = named_trees(3, 3, &pool);
     run_structures(rep, "name-prefix family: S(3,3) with member names drawn from {a, ab, abc, b} in every sibling-distinct way x all strategies", &nt, &all_strats, &two, checks, false);
+    run_structures(rep, "wide containers: arrays / objects of 11, 100, 300 entries x 6 strategies", &wide_trees(), &wide_strategies, &c8, checks, false);
     let ch = chains(if quick { 6 } else { 8 });
     run_structures(rep, "depth chains", &ch, &few_strategies, &c8, checks, false);
     let ex = trees_with_extras(2, 2);
     run_structures(rep, "S(2,2) with iat and sub at the root (always-visible keys at varying positions)", &ex, &all_strats, &c8, checks, false);
+    reused_issuer_pass(rep);
     if rep.outcome_count("issue_err") == 0 || rep.outcome_count("issue_ok") == 0 {
         rep.machinery_error("vacuity: C05 scope produced only one kind of issuance outcome".into());
     }
